@@ -191,6 +191,8 @@ type Frame struct {
 	// assigns clauses of the loops being executed (inherited by expanded callees)
 	loopFrames []*loopFrame
 	curBlk     *ssa.BasicBlock
+	// memory at the entry of an expanded callee: what verifOld means in its loop contracts
+	entryMem *MemState
 	// loop-iteration allocations start at this counter (for loop assigns checks)
 	callCount map[string]int
 	inl       map[string]bool // callees forced to be inlined (lemma directive)
